@@ -3,7 +3,8 @@ import PsModel.Model.C20
 # C20 reference spec – what the requirement files *mean*, independent of any order
 
 A line means something only if, after removing the comment and surrounding blanks, it is `name` or
-`name==version` with a plain distribution name and a version that `Version()` accepts; everything else
+`name==version` with a plain distribution name (identified up to PEP 503 normalisation: `My_Pkg` = `my-pkg`) and a
+version that `Version()` accepts; everything else
 (blank, comment, `>=`/`<=`/`~=`/`!=`/`,` forms – any line with one of the specifier patterns `SPEC_PATS` –,
 several `==`, a pin that is not a version) is ignored.  The spec does not depend on the model's `Cfg`.
 The selected version of a package is *a* highest valid pin, the unpinned marker only if there is no valid pin,
@@ -35,11 +36,12 @@ clauses): a line that contains one of these substrings is not of the supported `
 lone `!` is not among them: it separates the epoch of a version (`1!2.0`). -/
 def SPEC_PATS : List Str := [[','], ['>'], ['<'], ['~', '='], ['!', '=']]
 
-/-- meaning of one line: `(name, none)` unpinned, `(name, some v)` a valid pin, `none` ignored -/
+/-- meaning of one line: `(package, none)` unpinned, `(package, some v)` a valid pin, `none` ignored.  The package
+is identified by its normalised name (PEP 503: case and the `-`/`_`/`.` spelling do not matter) -/
 def specLine {V} (ver : Ver V) (raw : Str) : Option (Str × Option Str) :=
   match parseLineWith SPEC_PATS raw with
-  | some (n, none) => if plainName n then some (n, none) else none
-  | some (n, some v) => if plainName n && (ver.parse v).isSome then some (n, some v) else none
+  | some (n, none) => if plainName n then some (normName n, none) else none
+  | some (n, some v) => if plainName n && (ver.parse v).isSome then some (normName n, some v) else none
   | none => none
 
 /-- `r` is a correct selection for package `p` given the meanings `ms` of all lines (order-free) -/
